@@ -156,15 +156,20 @@ def _run(c):
         if role in ("arg", "bq", "kwarg", "kwarg-same", "nested"):
             return np.full(n, float(v))
         fn = (lambda x, _v=float(v): x * 0 + _v)
+        def module(nm_, **attrs):
+            # a real module object (what `import mod` binds): the most common head of a dotted callee
+            m = types.ModuleType(nm_)
+            m.__dict__.update(attrs)
+            return m
         if role == "dotted2":
-            return types.SimpleNamespace(sub=types.SimpleNamespace(nm=fn))
+            return module("mod", sub=module("mod.sub", nm=fn))
         if role == "dotted3":
             def const(k):
                 return lambda x: x * 0 + k
             return types.SimpleNamespace(
                 sub=types.SimpleNamespace(deep=types.SimpleNamespace(nm=fn), nm=const(-1.0)),
                 deep=types.SimpleNamespace(nm=const(-2.0)), nm=const(-3.0))
-        return types.SimpleNamespace(nm=fn) if role == "dotted" else fn
+        return module("mod", nm=fn) if role == "dotted" else fn
 
     cols = {"y": np.arange(n, dtype=float), "x": np.arange(n, dtype=float) + 1}
     if "data" in d:
